@@ -499,6 +499,61 @@ def namelimit_cases(draw):
     return {"form": form, "origin": G.hexl(origin), "rel": G.hexl(rel), "relativize": draw(st.booleans())}
 
 
+
+# ---------------------------------------------------------------------------
+# fields with a 16-bit length prefix: a value accepted from text must be encodable
+
+
+def fieldlimit_cases():
+    out = []
+    for form in ("TKEY.key", "TKEY.other", "TSIG.mac", "TSIG.other", "HIP.key", "HIP.hit"):
+        for n in (255, 256, 65535, 65536, 70000):
+            out.append({"form": form, "n": n})
+    return out
+
+
+def run_fieldlimit(case):
+    import base64
+
+    import dns.exception
+    import dns.rdata
+
+    n = case["n"]
+    blob = bytes((i * 7 + 3) & 0xFF for i in range(n))
+    b64 = base64.b64encode(blob).decode()
+    small = "AQID"
+    form = case["form"]
+    tname = form.split(".")[0]
+    text = {
+        "TKEY.key": f"alg. 1 2 3 0 {b64}",
+        "TKEY.other": f"alg. 1 2 3 0 {small} {b64}",
+        "TSIG.mac": f"hmac-sha256. 1 300 {n} {b64} 1 0 0",
+        "TSIG.other": f"hmac-sha256. 1 300 3 {small} 1 0 {n} {b64}",
+        "HIP.key": f"2 200100107B1A74DF365639CC39F1D578 {b64}",
+        "HIP.hit": f"2 {blob.hex()} {small}",
+    }[form]
+    rdclass = 255 if tname in ("TKEY", "TSIG") else 1
+    rdtype = R.TYPECODES[tname]
+    limit = 255 if form == "HIP.hit" else 65535
+    try:
+        rd = dns.rdata.from_text(rdclass, rdtype, text)
+    except dns.exception.DNSException:
+        if n <= limit:
+            raise Violation("fieldlimit", f"{form}: a value of {n} octets (limit {limit}) was refused", "refused:" + form)
+        return {"nontrivial": True, "classes": ["fl-refused"]}
+    try:
+        w = rd.to_wire()
+        rd.to_text()
+    except Exception as e:
+        raise Violation("totality", f"{form}: from_text accepted a field of {n} octets but encoding raised {type(e).__name__}: {e}", "fieldlimit:" + form)
+    if n > limit:
+        raise Violation("fieldlimit", f"{form}: a field of {n} octets was accepted although its length prefix cannot express it", "accepted:" + form)
+    back = dns.rdata.from_wire(rdclass, rdtype, w, 0, len(w))
+    if back != rd:
+        raise Violation("roundtrip", f"{form}: record with a {n}-octet field differs after text -> wire -> record", "fieldlimit-roundtrip:" + form)
+    return {"nontrivial": True, "classes": ["fl-accepted"]}
+
+
 def parts(tier):
     per_type = {"quick": 30, "thorough": 300}[tier]
     req = {("acc:" + t): per_type for t in TEXT_TYPES}
@@ -514,6 +569,8 @@ def parts(tier):
              shards={"quick": 8, "thorough": 16}),
         Part("textmut", run_textmut, strategy=textmut_cases(TEXT_TYPES), n={"quick": 300 * n_types, "thorough": 4000 * n_types},
              require={"mut-accepted": 2000, "mut-rejected": 2000}, shards={"quick": 16, "thorough": 16}),
+        Part("fieldlimit", run_fieldlimit, cases=fieldlimit_cases, shards={"quick": 4, "thorough": 4},
+             require={"fl-accepted": 10, "fl-refused": 10}),
         Part("namelimit", run_namelimit, strategy=namelimit_cases(), n={"quick": 3000, "thorough": 60000},
              require={"full:255": 300, "full:256": 300, "accepted": 500, "too-long-refused": 500}, shards={"quick": 4, "thorough": 8}),
     ]
